@@ -28,6 +28,7 @@ import (
 	"os"
 	"path/filepath"
 	"reflect"
+	"runtime/pprof"
 	"sort"
 	"strings"
 	"sync"
@@ -981,7 +982,12 @@ type runOut struct {
 }
 
 var progress atomic.Int64 // watchdog
-var current atomic.Value  // string: what is being executed
+var current atomic.Value  // what is being executed (for the watchdog message)
+
+type running struct {
+	cfg, seed string
+	history   []string
+}
 
 // runHistory replays hist on a wiped database of cfg and on the model.
 func runHistory(cfg config, seed seedDef, ops []opDef, hist []int, wantKey, verbose bool) (out runOut) {
@@ -991,16 +997,12 @@ func runHistory(cfg config, seed seedDef, ops []opDef, hist []int, wantKey, verb
 		out.viol = &violation{clause: "ENGINE", detail: err.Error()}
 		return
 	}
-	logf := func(format string, a ...any) {
-		if verbose {
-			out.log = append(out.log, fmt.Sprintf(format, a...))
-		}
-	}
+	logf := func(format string, a ...any) { out.log = append(out.log, fmt.Sprintf(format, a...)) }
 	names := make([]string, len(hist))
 	for i, oi := range hist {
 		names[i] = ops[oi].name
 	}
-	current.Store(fmt.Sprintf("%v seed=%s history=%v", cfg, seed.name, names))
+	current.Store(running{cfg.String(), seed.name, names})
 
 	// fresh state
 	vtime.SetManual(true, time.Unix(t0, 0))
@@ -1057,7 +1059,9 @@ func runHistory(cfg config, seed seedDef, ops []opDef, hist []int, wantKey, verb
 		} else {
 			want = o.ref(m)
 		}
-		logf("step %d %-45s impl: %-60s model: %s", step+1, o.name, got, want)
+		if verbose {
+			logf("step %d %-45s impl: %-60s model: %s", step+1, o.name, got, want)
+		}
 		if d := diffResult(got, want); d != "" {
 			out.viol = &violation{"operation-result-equals-model", layer + ":" + o.kind, d,
 				fmt.Sprintf("step %d %s returned %v, the reference map says %v (model before probe: %s)", step+1, o.name, got, want, m.dump())}
@@ -1098,7 +1102,9 @@ func runHistory(cfg config, seed seedDef, ops []opDef, hist []int, wantKey, verb
 			return
 		}
 		full := fmt.Sprintf("%v|%s|M:%s|R:%s|C:%s", cfg, seed.name, m.dump(), dumpMap(raw), dumpCache(x.iface))
-		logf("state: %s", full)
+		if verbose {
+			logf("state: %s", full)
+		}
 		h := sha256.Sum256([]byte(full))
 		out.key = hex.EncodeToString(h[:16])
 	}
@@ -1111,7 +1117,11 @@ func runHistory(cfg config, seed seedDef, ops []opDef, hist []int, wantKey, verb
 	out.nontriv = len(m.recs) >= 2 || invisible > 0
 
 	// probe
-	if v := probe(x, m, layer, lastKind, logf); v != nil {
+	var plog func(string, ...any)
+	if verbose {
+		plog = logf
+	}
+	if v := probe(x, m, layer, lastKind, plog); v != nil {
 		out.viol = v
 		out.key = ""
 	}
@@ -1143,7 +1153,9 @@ func probe(x *exec, m *model, layer, lastKind string, logf func(string, ...any))
 		if p != nil {
 			return &violation{"never-panics", layer + ":" + lastKind + "→Get", vlib.PanicSite(stack), fmt.Sprintf("probe Get(%s) panicked: %v\n%s", k, p, firstLines(stack, 14))}
 		}
-		logf("probe Exists(%s)=%v,%v Get(%s): impl %v | model %v", k, ex, exErr, k, got, want)
+		if logf != nil {
+			logf("probe Exists(%s)=%v,%v Get(%s): impl %v | model %v", k, ex, exErr, k, got, want)
+		}
 		if exErr != nil || ex != (want.cls == "found") {
 			return &violation{"get-returns-latest-or-notfound", layer + ":" + lastKind + "→Exists", fmt.Sprintf("%v→%v", want.cls == "found", exResult(ex, exErr)),
 				fmt.Sprintf("after the history, Exists(%s) = %v (err %v), the reference map says %v (model: %s)", k, ex, exErr, want, m.dump())}
@@ -1173,7 +1185,9 @@ func probe(x *exec, m *model, layer, lastKind string, logf func(string, ...any))
 			site += ",condition"
 		}
 		site += "]"
-		logf("probe query %-50s impl %v | model %v", q.name, sortedVals(got), sortedVals(want))
+		if logf != nil {
+			logf("probe query %-50s impl %v | model %v", q.name, sortedVals(got), sortedVals(want))
+		}
 		describe := func() string {
 			return fmt.Sprintf("query %q returned %v, the reference map says %v (model: %s)", q.name, sortedVals(got), sortedVals(want), m.dump())
 		}
@@ -1325,6 +1339,7 @@ func report(c *vlib.Ctx, cfg config, seed seedDef, ops []opDef, hist []int, v *v
 	}
 	site := v.site
 	detail := fmt.Sprintf("configuration %v, initial storage %s, history %v: %s", cfg, seed.name, names, v.detail)
+	wcfg, wnames := cfg, names
 	// attribute the violation to the simplest cache mode in which the same history (without flushes) fails in the same clause
 	var simpler []string
 	switch cfg.Cache {
@@ -1359,13 +1374,23 @@ func report(c *vlib.Ctx, cfg config, seed seedDef, ops []opDef, hist []int, v *v
 		if r := runHistory(plain, seed, pops, ph, false, false); r.viol != nil && r.viol.clause == v.clause {
 			site = r.viol.site
 			detail += fmt.Sprintf(" [the same history fails with cache mode %q too: attributed to that layer]", cm)
+			wcfg, wnames = plain, nil
+			for _, oi := range ph {
+				wnames = append(wnames, pops[oi].name)
+			}
 			break
 		}
 	}
-	c.Violate(v.clause, site, v.disc, detail, witness{cfg, seed.name, names})
+	c.Violate(v.clause, site, v.disc, detail, witness{wcfg, seed.name, wnames})
 }
 
 func shardWork(c *vlib.Ctx, cfgs []config, opsFor func(config) []opDef) {
+	if pf := os.Getenv("C02_SHARD_PROFILE"); pf != "" && c.Shard == 0 { // development aid
+		if f, err := os.Create(pf); err == nil {
+			_ = pprof.StartCPUProfile(f)
+			defer pprof.StopCPUProfile()
+		}
+	}
 	b, err := os.ReadFile(*flagLevel)
 	if err != nil {
 		c.EngineError("level file: %v", err)
@@ -1410,6 +1435,9 @@ func shardWork(c *vlib.Ctx, cfgs []config, opsFor func(config) []opDef) {
 			}
 			// badger is slow (about 1 ms per transaction): its histories end one step earlier
 			last := lf.Last || (cfg.Backend == "badger" && lf.Depth >= lf.Max-1)
+			if lf.Last {
+				c.ExtraAdd("deepest_level_nodes_expanded", 1)
+			}
 			dirty := dirtyAfter(ops, nd.Hist)
 			h := append(append(make([]int, 0, len(nd.Hist)+1), nd.Hist...), 0)
 			for oi, o := range ops {
@@ -1442,6 +1470,23 @@ func shardWork(c *vlib.Ctx, cfgs []config, opsFor func(config) []opDef) {
 	if err := os.WriteFile(filepath.Join(*flagSucc, fmt.Sprintf("succ-%d.json", c.Shard)), ob, 0o644); err != nil {
 		c.EngineError("successor file: %v", err)
 	}
+}
+
+// interleave orders nodes round-robin over the configurations (stable within a configuration).
+func interleave(nodes []node, nCfg int) []node {
+	groups := make([][]node, nCfg)
+	for _, n := range nodes {
+		groups[n.Cfg] = append(groups[n.Cfg], n)
+	}
+	out := make([]node, 0, len(nodes))
+	for i := 0; len(out) < len(nodes); i++ {
+		for _, g := range groups {
+			if i < len(g) {
+				out = append(out, g[i])
+			}
+		}
+	}
+	return out
 }
 
 func watchdog() {
@@ -1507,7 +1552,7 @@ func main() {
 		if *flagDepth > 0 {
 			maxDepth = *flagDepth
 		}
-		c.SetBudget(vlib.Pick(c, 150*time.Second, 25*time.Minute))
+		c.SetBudget(vlib.Pick(c, 170*time.Second, 25*time.Minute))
 		workDir, err := os.MkdirTemp("", "verif-c02-levels-")
 		if err != nil {
 			c.EngineError("mkdtemp: %v", err)
@@ -1606,6 +1651,11 @@ func main() {
 			depthDone = depth
 			if !lf.Last {
 				frontier = next
+				if depth+1 == maxDepth {
+					// the deepest level may be cut off by the budget: interleave the configurations so that a cut is even
+					frontier = interleave(frontier, len(cfgs))
+					c.Extra("deepest_level_nodes_total", len(frontier))
+				}
 			}
 		}
 		c.Add(int64(len(seen)), 0, 0)
